@@ -157,6 +157,61 @@ def run(rep, tier="quick", replay=None, evidence_dir=None, collect_only=False):
             pis = calls_named(pl, P + "parse_input_schemas")
             rep.ob("C20.R1", "Parser::parse_list parses all inputs before collecting", len(pis) == 1 and pl.dominates(pis[0][0], src[0][0]), "", pl.loc())
 
+    # ------------------------------------------------------------ R6 an input parsed on demand is answered with a reference
+    rep.rule("C20.R6", "a reference to an input that is parsed on demand gets the same answer as a reference to an already parsed one: Schema::Ref for every named shape")
+    gsr = [b for k, b in prog.bodies.items() if k.startswith(P + "fetch_schema_ref::") and b.kind != "Closure" and b.argc == 1]
+    if len(gsr) != 1:
+        rep.anchor_error("C20.R6", P + "fetch_schema_ref::<helper that turns the parsed input into the returned schema>")
+    else:
+        from wire import Wire
+        from vpes import top_shapes
+        g = gsr[0]
+        w_ = Wire(prog)
+        gvp = w_.vpes(g)
+        nb = prog.bodies.get("schema::Schema::name")
+        named = set()
+        if nb is not None:
+            nvp = w_.vpes(nb)
+            for s_, reg in top_shapes(nvp, 1):
+                if any(st["s"] == "assign" and st["rv"]["r"] == "agg" and st["rv"].get("adt") == "std::option::Option" and st["rv"].get("variant") == "Some" for x in reg for st in nb.blocks[x]["stmts"]):
+                    named.add(nvp.shape_name(s_, 1).split("(")[0])
+        rep.ob("C20.R6", "Schema::name() knows the named shapes", {"Record", "Enum", "Fixed", "Duration", "Decimal", "Uuid"} <= named, "named shapes found: %s" % sorted(named), nb.loc() if nb else "")
+        n6 = 0
+        for s_, reg in top_shapes(gvp, 1):
+            S_ = gvp.shape_name(s_, 1).split("(")[0]
+            refs = any(st["s"] == "assign" and st["rv"]["r"] == "agg" and st["rv"].get("variant") == "Ref" for x in reg for st in g.blocks[x]["stmts"])
+            if S_ in named:
+                n6 += 1
+                rep.ob("C20.R6", "an on-demand input of shape %s is answered with a reference" % S_, refs,
+                       "the referring schema gets a copy of the whole definition when the input is parsed on demand and a reference when it was parsed before: the result depends on the order of the inputs (and the name is defined twice)", g.loc())
+        rep.floor("C20.R6", "named shapes", n6, 6)
+
+    # ------------------------------------------------------------ R7 what a reference can resolve to does not depend on what was parsed before
+    rep.rule("C20.R7", "the set of names a reference can resolve to is the same whichever input is parsed first: no name becomes referable only as a side effect of parsing another input")
+    rps = prog.bodies.get(P + "register_parsed_schema")
+    fsr = prog.bodies.get(P + "fetch_schema_ref")
+    if rps is None or fsr is None:
+        rep.anchor_error("C20.R7", P + "register_parsed_schema / fetch_schema_ref")
+    else:
+        fam_r = prog.with_closures(rps)
+        alias_ins = [(bb, bi) for bb in fam_r if bb.kind == "Closure" for bi, t in calls_named(bb, "std::collections::HashMap::<K, V, S, A>::insert")]
+        rep.ob("C20.R7", "aliases are not entered into the table references are looked up in", not alias_ins,
+               "an alias of an input becomes a referable name once that input has been parsed: a reference by alias from another input resolves or fails depending on the order of the inputs", alias_ins[0][0].loc(alias_ins[0][1]) if alias_ins else rps.loc())
+        # nested definitions: registered when their enclosing input is parsed; an unparsed name is only looked for among the inputs' own names
+        nested_reg = [b.path for k, b in prog.bodies.items() if b.crate == "apache_avro" and b.path in (P + "parse_record", P + "parse_enum", P + "parse_fixed") and calls_named(b, P + "register_parsed_schema")]
+        fallbacks = sorted(set(fsr.opdesc(t["args"][0]) for bi, t in fsr.calls() if callee_names(t["func"])[0].startswith("std::collections::HashMap::") and callee_names(t["func"])[0].split("::")[-1] in ("remove", "get", "contains_key", "remove_entry") and t["args"]))
+        pre_pass = [x for x in fallbacks if x not in ("self.parsed_schemas", "self.resolving_schemas", "self.input_schemas")]
+        rep.ob("C20.R7", "a definition nested in one input is referable from another input whatever the order", not nested_reg or bool(pre_pass),
+               "nested definitions are registered while their enclosing input is parsed (%s); a name that is not registered yet is only searched among the inputs' own names (%s): a reference to a type defined inside another input resolves only when that input comes first" % (", ".join(x.split("::")[-1] for x in nested_reg), ", ".join(fallbacks)), fsr.loc())
+    rfp = prog.bodies.get("schema::record::field::RecordField::parse")
+    if rfp is None:
+        rep.anchor_error("C20.R7", "RecordField::parse")
+    else:
+        partial = [bi for bi, t in calls_named(rfp, P + "get_parsed_schemas")]
+        rd = calls_named(rfp, "schema::record::field::RecordField::resolve_default_value")
+        rep.ob("C20.R7", "field defaults are checked against the complete set of definitions, not against what has been parsed so far", not (partial and rd),
+               "a default is resolved while the list is still being parsed (RecordField::parse hands resolve_default_value the parser's partial table): two inputs that refer to each other and carry record defaults are accepted in one order and rejected in the other", rfp.loc(rd[0][0]) if rd else rfp.loc())
+
     # ------------------------------------------------------------ R2
     for fn in ("schema::Schema::parse_list", "schema::Schema::parse_str_with_list"):
         b = get(prog, rep, "C20.R2", fn)
